@@ -52,6 +52,12 @@ def condense_event(pp, tid, A, plus, prec, via):
     return ev
 
 
+def _job(args):
+    import peptacular as pp
+    warnings.simplefilter("ignore")
+    return condense_event(pp, *args)
+
+
 def run(tier, seed, rep):
     warnings.simplefilter("ignore")
     import peptacular as pp
@@ -59,10 +65,9 @@ def run(tier, seed, rep):
     thorough = tier == "thorough"
     r = core.model_check("MC_Mass", "MC_Mass.cfg", workers=16, xmx="6g")
     rep.add_mc("MC_Mass (reference laws used by the condensation clauses)", r)
-    evs = []
-    for i in range(25000 if thorough else 2500):
-        evs.append(condense_event(pp, f"c{i}", gen(rnd), rnd.random() < 0.5, rnd.choice([3, 4, 5, 6, 6, 7, 8]),
-                                  "str" if i % 2 else "ann"))
+    jobs = [(f"c{i}", gen(rnd), rnd.random() < 0.5, rnd.choice([3, 4, 5, 6, 6, 7, 8]), "str" if i % 2 else "ann")
+            for i in range(25000 if thorough else 2500)]
+    evs = core.pmap(_job, jobs)
     res = core.validate_traces("Trace_Mass", evs, "C18", min_per_shard=80)
     rep.add_trace("condense_to_mass_mods", evs, res,
                   sig=lambda e: (e["plus"], e["prec"], e["via"], tuple(sorted(k for k in ("labile", "static", "isotope",
